@@ -359,9 +359,13 @@ def run_part(chk, judge=None):
             chk.traces += len(strings) - unm
         # (2) abstract declarations in random spellings, observed as the variables of a module
         cases = []
+        # forced in every run: array specs on the entity with "=" inside the parentheses (keyword arguments, relational
+        # operators), with and without an initial value / pointer initialisation
+        drawn = G.forced_eq_decls(rng)
         for _ in range(900 if quick else 12000):
             d = G.gen_decl(rng)
-            sp = G.gen_dspell(rng, d, plain=rng.random() < 0.15)
+            drawn.append((d, G.gen_dspell(rng, d, plain=rng.random() < 0.15)))
+        for d, sp in drawn:
             text = G.render_decl(sp, d)
             out = P.module_vars([text])
             if not vars_ok(out):
